@@ -131,6 +131,45 @@ class VRange:
         self.cur, self.end, self.inclusive, self.done = cur, end, inclusive, False
 
 
+class VStr:
+    """&str over ASCII: a concrete-length list of symbolic byte codes (Int terms)."""
+    __slots__ = ("bytes",)
+
+    def __init__(self, bs):
+        self.bytes = list(bs)
+
+    def __repr__(self):
+        return f"VStr({self.bytes})"
+
+
+class VString:
+    """owned String (mutated through &mut): list of byte terms."""
+    __slots__ = ("bytes",)
+
+    def __init__(self, bs=()):
+        self.bytes = list(bs)
+
+
+class VCharIter:
+    """CharIndices over an ASCII &str: concrete position."""
+    __slots__ = ("s", "pos")
+
+    def __init__(self, s, pos=0):
+        self.s, self.pos = s, pos
+
+
+class VRes:
+    """Result<T, E>: `ok` Bool term, payloads (statically absent ones are None)."""
+    __slots__ = ("ok", "val", "err")
+
+    def __init__(self, ok, val=None, err=None):
+        self.ok = ok if isinstance(ok, smt.Term) else smt.const(bool(ok))
+        self.val, self.err = val, err
+
+    def __repr__(self):
+        return f"VRes({self.ok}, {self.val})"
+
+
 class VSeq:
     """A finite lazily-mapped sequence (e.g. `(start..=end).map(closure)`): list of values."""
     __slots__ = ("items",)
